@@ -75,11 +75,6 @@ def strategyOf {σ} (ofName : String → Option σ) (n : Option String) : Except
     | some s => pure (some s)
     | none => throw s!"unknown strategy {n}"
 
-/-- `lowpass(cutoff)` (default strategy `pole`, model of property C13) as `(b, a)` with `a0 = 1` dropped -/
-def poleDesign (c : Float) : List Float × List Float :=
-  let k := ALV.C13.lowpassPole c
-  (k.num, k.den.drop 1)
-
 /-- Inputs longer than this are "long": their specification is evaluated through the one-pass
     recursion `…SpecRec` (linear time) instead of the closed form (quadratic).  The two are equal
     for all inputs: `ALV.Props.C20.rat_spec_recursions`. -/
@@ -131,8 +126,8 @@ def handle (entry : String) (j : Json) : Except String Json := do
     let a ← getList getFloat (← field j "a")
     let xs ← getList getFloat (← field j "xs")
     pure <| Json.mkObj [
-      ("abs", arr floatToJson (envelopeAbs b a xs)),
-      ("squared", arr floatToJson (envelopeSquared b a xs))]
+      ("abs", arr floatToJson (F.envelopeAbs b a xs)),
+      ("squared", arr floatToJson (F.envelopeSquared b a xs))]
   | "envelope" =>
     let b ← getList getRat (← field j "b")
     let a ← getList getRat (← field j "a")
@@ -277,9 +272,10 @@ def handle (entry : String) (j : Json) : Except String Json := do
       | some v => do let c ← getFloat v; pure (some c)
     let xs ← getList getFloat (← field j "xs")
     let c := cutoff.getD (dnum floatPi Dflt.envelope_cutoff)
-    let ba := poleDesign c
+    let ba : List Float × List Float := poleDesign c
     pure <| Json.mkObj [
-      ("model", arr floatToJson (envelopeCall poleDesign Float.sqrt floatPi st cutoff xs)),
+      ("model", arr floatToJson (F.envelopePoleCall st cutoff xs)),
+      ("spec", arr floatToJson (F.envelopeSpec st cutoff xs)),
       ("eff_cutoff", floatToJson c), ("b", arr floatToJson ba.1), ("a", arr floatToJson ba.2)]
   | "coeffs" =>
     -- the coefficient lists the filter-built strategies are modelled with (structural tie)
